@@ -27,6 +27,7 @@ const ModPath = "github.com/scipipe/scipipe"
 var LibPkgs = []string{ModPath, ModPath + "/components", ModPath + "/cmd/scipipe"}
 
 type Prog struct {
+	funcTables map[*ssa.Global]map[string]*ssa.Function
 	Dir      string
 	Fset     *token.FileSet
 	Pkgs     []*packages.Package
